@@ -14,10 +14,21 @@ for c in refactor2 refactor4 refactor5 features3 features5; do
 done
 python3 tools/benign.py > $L/regress_benign.log 2>&1 &
 wait
+# self-test variants (one rule instance broken each) and the rename probe
+python3 tools/selftests.py C01 C02 C03 C04 C05 > $L/regress_selftests_a.log 2>&1 &
+python3 tools/selftests.py C06 C07 C08 C09 C10 > $L/regress_selftests_b.log 2>&1 &
+python3 tools/selftests.py C11 C12 C13 C14 C15 > $L/regress_selftests_c.log 2>&1 &
+python3 tools/selftests.py C16 C17 C18 C19 C20 > $L/regress_selftests_d.log 2>&1 &
+python3 tools/rename_probe.py > $L/regress_rename.log 2>&1 &
+wait
 echo "== seeded: $(grep -c DETECTED-BY $L/regress_seeded.log) detected, $(grep -c ' missed ' $L/regress_seeded.log) missed, $(grep -c ERROR $L/regress_seeded.log) errors"
 for c in refactor2 refactor4 refactor5 features3 features5; do
   echo "== $c alarms: $(grep -c DETECTED-BY $L/regress_$c.log) of $(grep -c -E 'DETECTED-BY| missed ' $L/regress_$c.log); errors $(grep -c ERROR $L/regress_$c.log)"
   grep DETECTED-BY $L/regress_$c.log | cut -c1-260
 done
+echo "== selftests: $(cat $L/regress_selftests_?.log | grep -c MISSED) missed; $(cat $L/regress_selftests_?.log | grep '^selftests:' | tr '\n' ' ')"
+cat $L/regress_selftests_?.log | grep MISSED | cut -c1-260
+echo "== rename probe alarms: $(grep -c FALSE-ALARM $L/regress_rename.log) of $(grep -c -E 'silent|FALSE-ALARM' $L/regress_rename.log)"
+grep FALSE-ALARM $L/regress_rename.log | cut -c1-260
 echo "== benign false alarms: $(grep -c FALSE-ALARM $L/regress_benign.log)"
 grep -v silent $L/regress_benign.log | grep -v conda | cut -c1-300
